@@ -22,7 +22,7 @@ theorem margin_nonneg (x : LStage) (he : EarlyOK x) : 0 ≤ margin x := by
   · cases hc : x.lat.cubic <;> simp only [hc, Bool.false_eq_true, if_false, if_true] at he ⊢
     · have : (2 : ℚ) ≤ (x.lat.nc : ℕ) := by exact_mod_cast he.1
       linarith
-    · have : ((x.lat.pre : ℕ) : ℚ) + 2 ≤ (x.cfg.taps : ℕ) := by exact_mod_cast he
+    · have : ((x.lat.pre : ℕ) : ℚ) + 1 ≤ (x.cfg.prePost : ℕ) := by exact_mod_cast he.2
       linarith
   · have h1 : ((x.cfg.L : ℕ) : ℚ) ≤ (x.lat.postPeak : ℕ) + 1 := by exact_mod_cast he.1
     apply div_nonneg
@@ -49,19 +49,22 @@ theorem stage_need (K : Kern α) (x : LStage) (hwf : StageWF x.cfg x.s0) (hshape
     have hm : outCount x.cfg x.s0 m = m := by unfold outCount; simp [hk]
     rw [hm] at hout ⊢
     have hden : 0 < x.cfg.den := by unfold StageWF at hwf; simp only [hk] at hwf; exact hwf.1
+    have htaps : x.cfg.taps ≤ x.cfg.prePost + 1 := by unfold StageWF at hwf; simp only [hk] at hwf; exact hwf.2.2.2.2.2
+    have htq : ((x.cfg.taps : ℕ) : ℚ) ≤ (x.cfg.prePost : ℕ) + 1 := by exact_mod_cast htaps
     obtain ⟨h1, h2⟩ := clocked_need K x.cfg x.s0 hk hden hist m hout hst
     have hdq : (0 : ℚ) < (x.cfg.den : ℕ) := by exact_mod_cast hden
-    have h2q : ((x.s0.clk : ℕ) : ℚ) + ((m : ℚ) - 1) * (x.cfg.step : ℕ) < (x.cfg.den : ℕ) * ((hist.length : ℚ) + 1 - (x.cfg.taps : ℕ)) := by
-      have e1 : ((hist.length + 1 - x.cfg.taps : ℕ) : ℚ) = (hist.length : ℚ) + 1 - (x.cfg.taps : ℕ) := by
-        rw [Nat.cast_sub (by omega)]; push_cast; ring
+    have h2q : ((x.s0.clk : ℕ) : ℚ) + ((m : ℚ) - 1) * (x.cfg.step : ℕ) < (x.cfg.den : ℕ) * ((hist.length : ℚ) - (x.cfg.prePost : ℕ)) := by
+      have e1 : ((hist.length - x.cfg.prePost : ℕ) : ℚ) = (hist.length : ℚ) - (x.cfg.prePost : ℕ) := by
+        rw [Nat.cast_sub (by omega)]
       have e2 : ((m - 1 : ℕ) : ℚ) = (m : ℚ) - 1 := by rw [Nat.cast_sub hout]; simp
       have := h2
-      have hc : ((x.s0.clk + (m - 1) * x.cfg.step : ℕ) : ℚ) < ((x.cfg.den * (hist.length + 1 - x.cfg.taps) : ℕ) : ℚ) := by exact_mod_cast this
+      have hc : ((x.s0.clk + (m - 1) * x.cfg.step : ℕ) : ℚ) < ((x.cfg.den * (hist.length - x.cfg.prePost) : ℕ) : ℚ) := by exact_mod_cast this
       push_cast at hc
       rw [e1, e2] at hc
       exact hc
-    -- the represented position of output m-1, in the stage's FIFO coordinates, is below |hist| + 1 - taps
-    have hx : (((x.s0.clk : ℕ) : ℚ) + ((m : ℚ) - 1) * (x.cfg.step : ℕ)) / (x.cfg.den : ℕ) < (hist.length : ℚ) + 1 - (x.cfg.taps : ℕ) := by
+    -- the represented position of output m-1, in the stage's FIFO coordinates, is below |hist| - prePost: the stage waits for
+    -- `prePost + 1` frames from the position (for FIR stages `prePost + 1 ≥ taps`; the cubic stage holds back more than it reads)
+    have hx : (((x.s0.clk : ℕ) : ℚ) + ((m : ℚ) - 1) * (x.cfg.step : ℕ)) / (x.cfg.den : ℕ) < (hist.length : ℚ) - (x.cfg.prePost : ℕ) := by
       rw [div_lt_iff₀ hdq]; linarith
     have hsplit : (((x.s0.clk : ℕ) : ℚ) + ((m : ℚ) - 1) * (x.cfg.step : ℕ)) / (x.cfg.den : ℕ) =
         ((x.cfg.step : ℕ) : ℚ) / (x.cfg.den : ℕ) * ((m : ℚ) - 1) + ((x.s0.clk : ℕ) : ℚ) / (x.cfg.den : ℕ) := by
